@@ -55,9 +55,19 @@ JoinC(ps) == IF Len(ps) = 0 THEN <<>>
 
 SeqsUpTo(A, n) == UNION {[1..m -> A] : m \in 0..n}
 
+BS == "\\"
+\* quoting state after the first n characters: a quote opens a segment; inside a segment a quote closes it unless it is
+\* escaped by a preceding backslash (the escaped quote belongs to the content - this is how `re` reads its pattern,
+\* and since fix a9ff0c5 how the splitter reads it too).  Without backslashes this is the parity of the quote count.
+RECURSIVE InQ(_, _)
+InQ(s, n) == IF n = 0 THEN FALSE
+             ELSE LET prev == InQ(s, n - 1) IN
+                  IF s[n] # Q THEN prev
+                  ELSE IF ~prev THEN TRUE
+                  ELSE (n > 1 /\ s[n - 1] = BS)
 NQ(s, n)       == Cardinality({i \in 1..n : s[i] = Q})
-Balanced(s)    == NQ(s, Len(s)) % 2 = 0
-OuterCommas(s) == {i \in 1..Len(s) : s[i] = C /\ NQ(s, i - 1) % 2 = 0}
+Balanced(s)    == ~InQ(s, Len(s))
+OuterCommas(s) == {i \in 1..Len(s) : s[i] = C /\ ~InQ(s, i - 1)}
 CommasQuoted(s) == OuterCommas(s) = {}
 
 -----------------------------------------------------------------------------
@@ -117,7 +127,7 @@ SplitStepF(s, st) ==
       tmp1 == IF st.inq \/ v # C THEN Append(st.tmp, v) ELSE st.tmp
   IN  IF ~st.inq /\ v = Q
         THEN [st EXCEPT !.i = @ + 1, !.tmp = tmp1, !.stack = Append(@, v), !.inq = TRUE]
-      ELSE IF st.inq /\ st.stack # <<>> /\ Last(st.stack) = v
+      ELSE IF st.inq /\ st.stack # <<>> /\ Last(st.stack) = v /\ ~(st.i > 1 /\ s[st.i - 1] = BS)
         THEN [st EXCEPT !.i = @ + 1, !.tmp = tmp1, !.stack = Front(@), !.inq = FALSE]
       ELSE IF v = C /\ st.stack = <<>>
         THEN [st EXCEPT !.i = @ + 1, !.tmp = <<>>, !.res = Append(@, tmp1)]
